@@ -18,6 +18,28 @@ import (
 
 func TestMain(m *testing.M) { ev.Main(m, "C01", "exploration") }
 
+// encode-side probes: an encode may be the very first 16-bit operation in a process; decoding afterwards must work
+func init() {
+	for i := range sp.Spaces {
+		a := &sp.Spaces[i]
+		name := a.Name
+		ev.RegisterProbe(name+".encode-first", func() string {
+			if n, err := strconv.Atoi(os.Getenv("VERIF_PROBE_PROCS")); err == nil && n > 0 {
+				runtime.GOMAXPROCS(n)
+			}
+			if a.To16 != nil {
+				if a.To16(1) != 65535 || a.To8(1) != 255 {
+					return "To16Bit(1)/To8Bit(1) is not the maximum code"
+				}
+			}
+			if o := a.EncodeColor(color.RGBA64{R: 65535, G: 0, B: 65535, A: 65535}); o.R != 65535 || o.G != 0 || o.A != 65535 {
+				return fmt.Sprintf("EncodeColor(opaque magenta) = %v", o)
+			}
+			return ""
+		})
+	}
+}
+
 // order probes (see ev.ProbeOrders): every decode entry point of every space, in generated orders, each order in
 // a fresh process, so that the lazily built tables are first touched by a different function each time
 func init() {
